@@ -1,9 +1,6 @@
-SPECIFICATION GSpec
+SPECIFICATION Spec
 CONSTANTS
-  NKeys = 3
-  FailKeys = {3}
-  HLen = 2
   Stride = 1
   Offset = 0
-
+  Devs = {"RgPt", "BwRev", "BwOrigin", "WrapSlice", "RepairCp", "RepairJn"}
 CHECK_DEADLOCK FALSE
